@@ -9,6 +9,137 @@ ASSUMPTIONS = []
 FN_PROPS = {}
 
 
+SORTED_KEYS_ENS = """
+    ensures vx_keys_remaining(&r).len() == sorted_keys_of(map@).len(),
+            forall|i: int| 0 <= i < vx_keys_remaining(&r).len() ==> *(#[trigger] vx_keys_remaining(&r)[i]) == sorted_keys_of(map@)[i],
+            ascending(string_views(sorted_keys_of(map@))),
+            sorted_keys_of(map@).to_set() == map@.dom(),"""
+
+HDR_PRE = """broadcast use vstd::std_specs::hash::group_hash_axioms;
+broadcast use axiom_to_string_header_name, axiom_header_name_is_ascii_lower, axiom_lower_ascii, axiom_string_of;
+proof { reveal_strlit("\\n"); reveal_strlit(""); reveal_strlit(":"); assert(""@ =~= Seq::<char>::empty()); lits_auth(); }
+let ghost hm = hm_view(*headers);
+let ghost S = hdr_iter_pairs(*headers);
+let ghost SV = hdr_iter_views(*headers);
+let ghost mut K: Seq<String> = Seq::empty();
+let ghost mut KV: Seq<Seq<char>> = Seq::empty();
+let ghost mut acc: Seq<Seq<char>> = Seq::empty();
+"""
+HDR_INV0 = """
+        invariant
+            vx_hdr_remaining(&vx_it0).len() <= S.len(),
+            forall|j: int| 0 <= j < vx_hdr_remaining(&vx_it0).len() ==> *(#[trigger] vx_hdr_remaining(&vx_it0)[j]).0 == S[S.len() - vx_hdr_remaining(&vx_it0).len() + j].0
+                && *vx_hdr_remaining(&vx_it0)[j].1 == S[S.len() - vx_hdr_remaining(&vx_it0).len() + j].1,
+            forall|k: String| #[trigger] map@.contains_key(k) <==> values_named(SV.subrange(0, S.len() - vx_hdr_remaining(&vx_it0).len()), k@).len() > 0,
+            forall|k: String| #[trigger] map@.contains_key(k) ==> map@[k].1@ == hv_view(values_named(SV.subrange(0, S.len() - vx_hdr_remaining(&vx_it0).len()), k@).last()) && is_ascii_lower(k@),
+        decreases vx_hdr_remaining(&vx_it0).len(),
+"""
+HDR_H1 = """
+        proof {
+            let i0 = S.len() - vx_hdr_remaining(&vx_it0).len() - 1;
+            assert(*value == S[i0].1 && key@ == SV[i0].0);
+            lemma_values_named_member(SV, i0);
+            assert(hm.contains_key(SV[i0].0));
+            assert(values_named(SV, SV[i0].0) == hm[SV[i0].0]);
+            assert(hv_visible_ascii(*value));
+        }"""
+HDR_H2 = """
+        proof {
+            let i0 = S.len() - vx_hdr_remaining(&vx_it0).len() - 1;
+            let n = SV[i0].0;
+            assert(is_ascii_lower(n));
+            lemma_ascii_lower_id(n);
+            assert(key_lower_case@ == n);
+            assert(SV.subrange(0, i0 + 1).drop_last() =~= SV.subrange(0, i0));
+            assert(SV.subrange(0, i0 + 1).last() == SV[i0]);
+            assert forall|k: String| #[trigger] map@.contains_key(k) <==> values_named(SV.subrange(0, i0 + 1), k@).len() > 0 by {
+                if k@ == n { assert(k == key_lower_case); }
+            }
+            assert forall|k: String| #[trigger] map@.contains_key(k) implies map@[k].1@ == hv_view(values_named(SV.subrange(0, i0 + 1), k@).last()) && is_ascii_lower(k@) by {
+                if k@ == n { assert(k == key_lower_case); }
+            }
+        }"""
+HDR_H3 = """
+    proof {
+        assert(SV.subrange(0, S.len() as int) =~= SV);
+        assert forall|k: String| #[trigger] map@.contains_key(k) <==> hm.contains_key(k@) by {
+            if map@.contains_key(k) { lemma_values_named_nonempty(SV, k@); }
+            if hm.contains_key(k@) { assert(values_named(SV, k@) == hm[k@]); }
+        }
+        K = sorted_keys_of(map@);
+        KV = string_views(K);
+    }"""
+HDR_INV1 = """
+        invariant
+            K == sorted_keys_of(map@), KV == string_views(K), ascending(KV), K.to_set() == map@.dom(),
+            forall|k: String| #[trigger] map@.contains_key(k) <==> hm.contains_key(k@),
+            forall|k: String| #[trigger] map@.contains_key(k) ==> map@[k].1@ == hv_view(signed_value(hm[k@])) && is_ascii_lower(k@),
+            vx_keys_remaining(&vx_it1).len() <= K.len(),
+            forall|j: int| 0 <= j < vx_keys_remaining(&vx_it1).len() ==> *(#[trigger] vx_keys_remaining(&vx_it1)[j]) == K[K.len() - vx_keys_remaining(&vx_it1).len() + j],
+            ascending(acc),
+            forall|x: Seq<char>| #[trigger] acc.contains(x) <==> lower(x) != AUTH_H() && exists|i: int| 0 <= i < K.len() - vx_keys_remaining(&vx_it1).len() && #[trigger] KV[i] == x,
+            canonicalized_headers@ == header_lines(acc, hm),
+            separator@ == lf(),
+        decreases vx_keys_remaining(&vx_it1).len(),
+"""
+HDR_H4 = """
+        proof {
+            let i0 = K.len() - vx_keys_remaining(&vx_it1).len() - 1;
+            assert(*key == K[i0] && key@ == KV[i0]);
+            assert(K.to_set().contains(K[i0]));
+            lemma_ascii_lower_id(key@);
+            assert(lower(key@) == key@);
+            lemma_header_lines_push(acc, key@, hm);
+            assert(h@ =~= header_line(key@, signed_value(hm[key@])));
+            let acc0 = acc;
+            acc = acc.push(key@);
+            assert forall|p: int, q: int| 0 <= p < q < acc.len() implies lex_lt(#[trigger] acc[p], #[trigger] acc[q]) by {
+                if q == acc0.len() {
+                    assert(acc0.contains(acc0[p]));
+                    let i = choose|i: int| 0 <= i < i0 && #[trigger] KV[i] == acc0[p];
+                    assert(lex_lt(KV[i], KV[i0]));
+                } else { assert(lex_lt(acc0[p], acc0[q])); }
+            }
+            assert forall|x: Seq<char>| #[trigger] acc.contains(x) <==> lower(x) != AUTH_H() && exists|i: int| 0 <= i < i0 + 1 && #[trigger] KV[i] == x by {
+                if acc.contains(x) {
+                    let j = choose|j: int| 0 <= j < acc.len() && acc[j] == x;
+                    if j < acc0.len() { assert(acc0[j] == x); assert(acc0.contains(x)); } else { assert(KV[i0] == x); }
+                }
+                if lower(x) != AUTH_H() && exists|i: int| 0 <= i < i0 + 1 && #[trigger] KV[i] == x {
+                    let i = choose|i: int| 0 <= i < i0 + 1 && #[trigger] KV[i] == x;
+                    if i < i0 { assert(acc0.contains(x)); let j = choose|j: int| 0 <= j < acc0.len() && acc0[j] == x; assert(acc[j] == x); } else { assert(acc[acc0.len() as int] == x); }
+                }
+            }
+        }"""
+HDR_H4C = """
+            proof {
+                let i0 = K.len() - vx_keys_remaining(&vx_it1).len() - 1;
+                assert(*key == K[i0] && key@ == KV[i0]);
+                assert(K.to_set().contains(K[i0]));
+                lemma_ascii_lower_id(key@);
+                assert(lower(key@) == AUTH_H());
+            }"""
+HDR_H5 = """
+    proof {
+        assert forall|x: Seq<char>| acc.to_set().contains(x) == signed_names(hm).contains(x) by {
+            if acc.contains(x) {
+                let i = choose|i: int| 0 <= i < K.len() && #[trigger] KV[i] == x;
+                assert(K.to_set().contains(K[i]));
+                assert(map@.contains_key(K[i]));
+            }
+            if signed_names(hm).contains(x) {
+                let k = string_of(x);
+                assert(map@.contains_key(k));
+                assert(K.to_set().contains(k));
+                let i = choose|i: int| 0 <= i < K.len() && K[i] == k;
+                assert(KV[i] == x);
+            }
+        }
+        assert(acc.to_set() =~= signed_names(hm));
+        lemma_sorted_names(acc, signed_names(hm));
+    }"""
+
+
 def build(u):
     hc = u.src("proxy_agent/src/common/hyper_client.rs")
     hp = u.src("proxy_agent/src/common/helpers.rs")
@@ -35,15 +166,42 @@ def build(u):
                 contract="""
         ensures r matches Ok(s) ==> s@ == mac_spec(hex_encoded_key@, input_to_sign@),  // @C04.compute_signature.mac_is_hex_hmac_sha256_under_the_key
 """)
-        with u.mod("hyper_client", uses="use super::error::{Error, HyperErrorType};\nuse super::result::Result;\nuse super::{constants, helpers};\nuse http::request::Builder;\nuse http::request::Parts;\nuse http::Method;\nuse hyper::body::Bytes;\nuse hyper::Request;\nuse hyper::Uri;\nuse std::collections::HashMap;"):
+        with u.mod("hyper_client", uses="use super::error::{Error, HyperErrorType};\nuse super::result::Result;\nuse super::{constants, helpers};\nuse http::request::Builder;\nuse http::request::Parts;\nuse http::Method;\nuse hyper::body::Bytes;\nuse hyper::Request;\nuse hyper::Uri;\nuse itertools::Itertools;\nuse std::collections::HashMap;"):
             u.take(hc, "LF", "const")
-            u.take_fn(hc, "headers_to_canonicalized_string", external_body=True, contract="""
-        ensures r@ == canon_h(hm_view(*headers)),
-""")
+            hit = hc.item("headers_to_canonicalized_string", "fn")
+            if len(hit["loops"]) != 2 or any(l["kind"] != "for" for l in hit["loops"]):
+                raise Undecided("headers_to_canonicalized_string: expected two for loops")
+            L0, L1 = hit["loops"]
+            u.take_fn(hc, "headers_to_canonicalized_string",
+                extra_attrs="#[verifier::loop_isolation(false)]",
+                contract="""
+        requires all_values_visible_ascii(hm_view(*headers)),  // @C13.headers_to_canonicalized_string.value_is_visible_ascii
+        ensures r@ == canon_h(hm_view(*headers)),  // @C04.headers_to_canonicalized_string.one_line_per_name_except_authorization_ascending
+""",
+                pre_body=HDR_PRE,
+                desugar_for={0: "vx_it0", 1: "vx_it1"},
+                loops={0: HDR_INV0, 1: HDR_INV1},
+                e9=[(tuple(L0["expr"]), None, "headers: &'a hyper::HeaderMap", "headers", "VxHdrIter<'a>", """
+    ensures vx_hdr_remaining(&r).len() == hdr_iter_pairs(*headers).len(),
+            forall|i: int| 0 <= i < vx_hdr_remaining(&r).len() ==> *(#[trigger] vx_hdr_remaining(&r)[i]).0 == hdr_iter_pairs(*headers)[i].0 && *vx_hdr_remaining(&r)[i].1 == hdr_iter_pairs(*headers)[i].1,
+            hm_iter_ok(hm_view(*headers), hdr_iter_views(*headers)),""",
+                     dict(name="vx_e11_header_iter", generics="<'a>", wrap="VxHdrIter", local=True)),
+                    (tuple(L1["expr"]), None, "map: &'a HashMap<String, (String, String)>", "&map", "VxSortedKeys<'a>", SORTED_KEYS_ENS,
+                     dict(name="vx_e11_sorted_keys", generics="<'a>", wrap="VxSortedKeys", body="map.keys().sorted()", local=True))],
+                e6=[("h", None, ["$@", "trim(map@[*key].1@)", "$@"])],
+                hints=[
+                    ("value.to_str()", None, "before", HDR_H1),
+                    ("map.insert(", None, "after", HDR_H2),
+                    (hc.s(L1["span"][0], L1["body"][0]), None, "before", HDR_H3),
+                    ("canonicalized_headers.push_str(&h);", None, "after", HDR_H4),
+                    ("continue;", None, "before", HDR_H4C),
+                    ("canonicalized_headers", -1, "before", HDR_H5),
+                ])
             u.take_fn(hc, "get_path_and_canonicalized_parameters", external_body=True, contract="""
         ensures r.0@ == uri_path(*url), r.1@ == canon_p(url_pairs(*url)),
 """)
             u.take_fn(hc, "as_sig_input",
+                pre_body="broadcast use group_items_of, axiom_clone_is_copy_u8;\nproof { reveal_strlit(\"\\n\"); }",
                 e9=[("head.method.to_string()", None, "head: &Parts", "&head", "String", "    ensures r@ == method_text(parts_method(*head)),", dict(name="vx_e9_parts_method_text", local=True)),
                     ("&head.headers", None, "head: &Parts", "&head", "&hyper::HeaderMap", "    ensures *r == parts_headers(*head),", dict(name="vx_e9_parts_headers", local=True)),
                     ("&head.uri", None, "head: &Parts", "&head", "&Uri", "    ensures *r == parts_uri(*head),", dict(name="vx_e9_parts_uri", local=True))],
@@ -51,6 +209,7 @@ def build(u):
         ensures r@ == sig_input_spec(parts_method(head), parts_uri(head), parts_headers(head), bytes_view(body)),  // @C04.as_sig_input.canonical_string_of_the_forwarded_parts
 """)
             u.take_fn(hc, "request_to_sign_input",
+                pre_body="broadcast use group_items_of, axiom_clone_is_copy_u8;\nproof { reveal_strlit(\"\\n\"); }",
                 e9=[("""Error::Hyper(HyperErrorType::RequestBuilder(
                 "Failed to get method from request builder".to_string(),
             ))""", "all", "", "", "Error", "", dict(name="vx_e9_builder_error", local=True))],
